@@ -221,6 +221,116 @@ theorem schemaDefs_A : schemaDefs (schemaToDocA s c apps) =
     if needsSchemaBlockA s c apps then [{ ops := rootOps s, dirs := keptAt c apps "" }] else [] := by
   unfold schemaToDocA schemaDefs
   split <;> simp [List.filterMap_append, List.filterMap_map, Function.comp_def]
+/-! ### the round trip WITHOUT erasure -/
+
+theorem declared_schemaToDocA (h : printBuildWF s = true) : Declared (schemaToDocA s c apps) = some s := by
+  simp only [printBuildWF, Bool.and_eq_true, List.all_eq_true, Bool.not_eq_true'] at h
+  obtain ⟨⟨⟨⟨⟨⟨⟨hty, hdi⟩, _⟩, _⟩, hro⟩, _⟩, _⟩, hres⟩ := h
+  have hmerged : merged (schemaToDocA s c apps) = s.types.map (typeToDefA s c apps) := by
+    rw [merged_noext _ (typeExts_A s c apps), typeDefs_A]
+  have htypes : (s.types.map (typeToDefA s c apps)).mapM (buildTypeDef (docEnvA s c apps)) = .ok s.types := by
+    rw [mapM_map_congr (typeToDefA s c apps) (typeToDef s) (buildTypeDef (docEnvA s c apps)) (buildTypeDef (docEnv s)) s.types
+      (fun t _ => buildTypeDefA s c apps t)]
+    exact mapM_to_doc _ _ _ (fun t ht => type_to_doc_build s t (hty t ht))
+  have hdirs : (s.directives.map (directiveToDefA s c apps)).mapM (buildDirective (docEnvA s c apps)) = .ok s.directives := by
+    rw [mapM_map_congr (directiveToDefA s c apps) (directiveToDef s) (buildDirective (docEnvA s c apps)) (buildDirective (docEnv s))
+      s.directives (fun d _ => buildDirectiveA s c apps d)]
+    exact mapM_to_doc _ _ _ (fun d hd => directive_to_doc_build s d (hdi d hd))
+  have hroots : declaredRoots (schemaToDocA s c apps) s.types = ⟨s.query, s.mutation, s.subscription⟩ := by
+    simp only [declaredRoots, schemaExtensions_A, schemaDefs_A, List.foldl_nil]
+    by_cases hn : needsSchemaBlockA s c apps = true
+    · simp only [hn, if_true]
+      cases hq : s.query <;> cases hm : s.mutation <;> cases hs : s.subscription <;> simp [rootOps, hq, hm, hs, Roots.set]
+    · simp only [hn, Bool.false_eq_true, if_false]
+      have hn' : needsSchemaBlock s = false := by
+        cases hh : needsSchemaBlock s with
+        | false => rfl
+        | true => simp [needsSchemaBlockA, hh] at hn
+      exact defaultRoots_of_implied s hn' hro
+  unfold Declared
+  simp only [hmerged, dirDefs_A]
+  have e : Env.of (s.types.map (typeToDefA s c apps)) = docEnvA s c apps := rfl
+  rw [e, htypes, hdirs]
+  simp only [hroots]
+  have e1 : s.defaultResolver = none := by simpa using hres
+  cases s
+  simp only [] at e1
+  subst e1
+  rfl
+
+/-- **print_build_roundtrip_custom** — building the document the printer denotes WITH its applied custom directives
+    gives back exactly the schema: the builder ignores applications of non-specified directives on every element. -/
+theorem print_build_roundtrip_custom (h : printBuildWF s = true) : build (schemaToDocA s c apps) = .ok s := by
+  have hdecl := declared_schemaToDocA s c apps h
+  simp only [printBuildWF, Bool.and_eq_true, List.all_eq_true, Bool.not_eq_true'] at h
+  obtain ⟨⟨⟨⟨⟨⟨⟨hty, hdi⟩, hut⟩, hud⟩, hro⟩, hth⟩, hea⟩, hres⟩ := h
+  have htd := typeDefs_A s c apps
+  apply build_exact_noext
+  exact
+    { uniqueTypes := by
+        rw [htd, List.map_map]; exact (hasDup_false_iff _).mp hut
+      uniqueDirectives := by
+        rw [dirDefs_A, List.map_map]; exact (hasDup_false_iff _).mp hud
+      oneSchema := by rw [schemaDefs_A]; split <;> simp
+      noBuiltinNames := by
+        intro t ht
+        rw [htd] at ht
+        obtain ⟨t0, ht0, rfl⟩ := List.mem_map.mp ht
+        have := hty t0 ht0
+        simp only [typeOK, Bool.and_eq_true, Bool.not_eq_true'] at this
+        exact this.2
+      noTypeExt := typeExts_A s c apps
+      noSchemaExt := schemaExtensions_A s c apps
+      declares := hdecl
+      noThunkCycle := by
+        rw [htd]
+        have e : Env.of (s.types.map (typeToDefA s c apps)) = docEnvA s c apps := rfl
+        rw [e, hasThunkCycleA]; exact hth
+      noEagerCycle := hea
+      noSpecified := by
+        rw [List.any_eq_false]
+        intro d hd
+        have := hdi d hd
+        simp only [directiveOK, Bool.and_eq_true, Bool.not_eq_true'] at this
+        rw [this.2]; simp
+      rootsOk := by
+        rw [htd, schemaDefs_A]
+        have hro' := hro
+        simp only [rootsOK, Bool.and_eq_true] at hro'
+        have e : Env.of (s.types.map (typeToDefA s c apps)) = docEnvA s c apps := rfl
+        by_cases hn : needsSchemaBlockA s c apps = true
+        · simp only [hn, if_true, List.head?_cons, buildRoots]
+          rw [e, resolvesA']
+          exact roots_addOps s _ (fun q e => by have := hro'.1.1; rw [e] at this; exact root_resolves s q this)
+            (fun q e => by have := hro'.1.2; rw [e] at this; exact root_resolves s q this)
+            (fun q e => by have := hro'.2; rw [e] at this; exact root_resolves s q this)
+        · simp only [hn, Bool.false_eq_true, if_false, List.head?_nil, buildRoots, pure, Except.pure]
+          have hn' : needsSchemaBlock s = false := by
+            cases hh : needsSchemaBlock s with
+            | false => rfl
+            | true => simp [needsSchemaBlockA, hh] at hn
+          rw [defaultRoots_of_implied s hn' hro] }
 end
+
+/-- THE TEXT-LEVEL ROUND TRIP WITH APPLIED DIRECTIVES, no erasure: for every option set, every schema and every assignment
+    of directive nodes that satisfy the lexical predicate `printTextWFA` and the structural predicate `printBuildWF`, the
+    text `to_string(include_custom_schema_directives=…)` prints is accepted by the lexer and the parser, and the document it
+    parses to — applied directives included — builds the schema (lists in printing order). -/
+theorem text_roundtrip_custom_build (c : OptsA) (s : SchemaD) (apps : Apps) (hwf : printTextWFA c s apps = true)
+    (hb : printBuildWF s = true) :
+    ∃ (d : Ast.Document) (doc : Doc), parseSdlTextT (printSchemaTA c s apps) = some d ∧ docToAst doc = some d ∧
+      doc = printedDocA s c apps ∧ build doc = .ok (printOrder s) := by
+  have hd := docToAst_schemaToDocA (printOrder s) c apps
+  refine ⟨_, printedDocA s c apps, ?_, hd, rfl, ?_⟩
+  · rw [print_schema_text_parses_custom c s apps hwf]; exact hd
+  · exact print_build_roundtrip_custom (printOrder s) c apps (printBuildWF_printOrder s hb)
+
+/-- non-vacuity -/
+example : build (schemaToDocA plainShop {} shopApps) = .ok plainShop := print_build_roundtrip_custom plainShop {} shopApps (by decide)
+example : ∃ d doc, parseSdlTextT (printSchemaTA { whitelist := some ["other"] } plainShop shopApps) = some d ∧ docToAst doc = some d ∧
+    doc = printedDocA plainShop { whitelist := some ["other"] } shopApps ∧ build doc = .ok (printOrder plainShop) :=
+  text_roundtrip_custom_build _ plainShop shopApps (by decide) (by decide)
+example : build (schemaToDocA shop {} [("", [{ name := "tag" }]), ("Query", [{ name := "tag" }])]) = .ok shop :=
+  print_build_roundtrip_custom shop {} _ shop_wf
 
 end PyGql.Props.C12
